@@ -16,8 +16,8 @@ re-proved for the SAME model (`Model/SkylineLU.lean`, generic over the notation 
   because the code multiplies the stored inverted pivot from the LEFT (`U = D[i] * sum`, `y[i] = D[i] * sum`).
 
 Product orders of the C++ source (solver/skyline_lu.hpp) and of the model, checked one by one:
-`U[ptr[k+1]] = D[0] * U[ptr[k+1]]` (253), `sum -= L[indexL] * U[indexU]` (271, 292, 300), `U[indexEntry] = D[i] * sum`
-(273), `sum -= L[k] * y[j]` (187), `y[i] = D[i] * sum` (189), `y[i] -= U[k] * y[j]` (195) — all reproduced by the model
+`U[ptr[k+1]] = D[0] * U[ptr[k+1]]` (257), `sum -= L[indexL] * U[indexU]` (275, 296), `sum -= L[j] * U[j]` (304),
+`U[indexEntry] = D[i] * sum` (277), `sum -= L[k] * y[j]` (188), `y[i] = D[i] * sum` (190), `y[i] -= U[k] * y[j]` (195) — all reproduced by the model
 with the same left/right operands; the identities below would be false for any other order (`a00_a01_noncomm`).
 
 The factorisation is `P A Pᵀ = L̃ · Ũ` with `L̃` lower triangular carrying the pivots `pv i` on its diagonal (left
